@@ -174,7 +174,7 @@ def run_case(case):
             # two separate, nearly equidistant closest points lies next to the medial axis and is not in the alphabet
             if not discrete and mag > 0:
                 jbest = int(np.argmin(dd_all))
-                locmin = [j for j in range(1, len(dd_all) - 1) if dd_all[j] <= dd_all[j - 1] and dd_all[j] <= dd_all[j + 1] and abs(j - jbest) > 40]
+                locmin = [j for j in range(1, len(dd_all) - 1) if dd_all[j] <= dd_all[j - 1] and dd_all[j] <= dd_all[j + 1] and abs(j - jbest) > 2]
                 if any(dd_all[j] < 1.1 * dmin + 1e-9 for j in locmin) or dd_all[0] < 1.1 * dmin and jbest > 40 or dd_all[-1] < 1.1 * dmin and jbest < len(dd_all) - 41:
                     continue
             d = float(np.linalg.norm(p - query))
